@@ -659,6 +659,10 @@ class Engine:
         return v
 
     def pure(self, n: N) -> bool:
+        if n.k in ('CXXConstructExpr', 'CXXTemporaryObjectExpr', 'CXXFunctionalCastExpr') and \
+                type_class(n.t) in ('py', 'regptr', 'int', 'bool', 'kind') and 'tuple' not in n.t and 'list' not in n.t \
+                and 'dict' not in n.t:
+            return all(self.pure(c) for c in n.c)
         if n.k in ('CallExpr', 'CXXMemberCallExpr', 'CXXOperatorCallExpr', 'CXXConstructExpr', 'LambdaExpr'):
             if n.k == 'CXXMemberCallExpr' and n.c and n.c[0].k == 'MemberExpr' and \
                     n.c[0].name in ('empty', 'size', 'is_none', 'back', 'is', 'end', 'begin', 'cend', 'crend'):
@@ -1468,6 +1472,10 @@ class Engine:
             if isinstance(v, Tup):
                 return Tup(tuple(havoc_value(x, f'{name}.{i}') for i, x in enumerate(v.items)))
             raise Unsupported(f'havoc of {name}={v!r}')
+        items = dict(st.ghost.get('items', {}))
+        for key, (ref, arr) in list(items.items()):
+            items[key] = (ref, z3.Array(f'items@L{k}!{next(M._counter)}', Int, Ref))
+        st.ghost['items'] = items
         for name in sorted(names):
             if name == 'this':
                 if st.this is not None:
@@ -1620,6 +1628,10 @@ class Engine:
             if o is NORMAL or o[0] == 'return':
                 normal += 1
                 ret = o[1] if o is not NORMAL else None
+                # tuples/lists built by this activation: their observable items are the final ghost item arrays
+                jq = z3.Int('j!items')
+                for key, (ref, arr) in s.ghost.get('items', {}).items():
+                    s.facts.append(z3.ForAll([jq], M.py_item(ref, jq) == z3.Select(arr, jq), patterns=[M.py_item(ref, jq)]))
                 for name, e in contract.post(Ctx(self, s, entry=entry), ret):
                     self.oblige(s, 'III', f'post:{name}', e, fn.get('line'))
                 for name, e in contract.frame(Ctx(self, s, entry=entry), ret):
@@ -1674,6 +1686,12 @@ class Ctx:
     def this_vec(self, st=None) -> NodeVec:
         st = st or self.st
         return self.vec(st.this, st)
+
+    def items(self, obj, st=None):
+        """Item array of a Python tuple/list that is being built by the engine (ghost)."""
+        st = st or self.st
+        ref = obj.ref if isinstance(obj, PyObj) else obj
+        return st.ghost.get('items', {}).get(ref.sexpr(), (ref, None))[1]
 
     def this_spec(self, st=None) -> SpecObj:
         st = st or self.st
